@@ -13,9 +13,9 @@ pub use crate::disk_store::verif_exports::{
 };
 pub use crate::disk_store::meta_store::{MetaStore, PartitionMetadata, SubpartitionMetadata};
 pub use crate::disk_store::wal_segment::WalSegment;
-pub use crate::engine::data_types::{BasicType, EncodingType};
+pub use crate::engine::data_types::{BasicType, BoxedData, Data, EncodingType};
 pub use crate::mem_store::codec::{Codec, CodecOp};
-pub use crate::mem_store::column::{Column, DataSection, DataSource};
+pub use crate::mem_store::column::{Column, DataSection, DataSource, DecodeArena};
 pub use crate::mem_store::column_buffer::ColumnBuffer;
 
 /// kind ∈ {"mkdir", "create", "write", "sync", "rename", "remove"}; `after` is false before the
@@ -59,6 +59,12 @@ pub(crate) fn sync_point(label: &'static str, detail: &str) {
             hook(label, detail);
         }
     }
+}
+
+/// `MetaStore::serialize` needs a crate-private tracer.
+pub fn serialize_meta_store(meta_store: &MetaStore) -> Vec<u8> {
+    let mut tracer = crate::observability::SimpleTracer::default();
+    meta_store.serialize(&mut tracer)
 }
 
 pub fn live_instances() -> usize {
